@@ -13,6 +13,7 @@ __all__ = [
     "preconditioner_taylor",
     "system_matrices_1d_iwp",
     "verify_taylor_coefficient_pytree",
+    "verify_taylor_coefficient_std_matches_mean",
 ]
 
 
@@ -118,3 +119,25 @@ def verify_taylor_coefficient_pytree(x, /):
             msg += f" However, leaf {i} has shape {xi_shape}"
             msg += f", while leaf 0 has shape {shape0}"
             raise ValueError(msg)
+
+
+def verify_taylor_coefficient_std_matches_mean(mean, std, /):
+    """Raise if the standard deviations are not structured exactly like the means."""
+    mean_shapes = tree.tree_map(np.shape, list(mean))
+    try:
+        std_shapes = tree.tree_map(np.shape, list(std))
+    except Exception as error:
+        msg = "Standard deviations must be a pytree of the same form as the mean."
+        raise ValueError(msg) from error
+
+    if tree.tree_structure(std_shapes) != tree.tree_structure(mean_shapes):
+        msg = "The standard deviations have a different PyTree structure than the mean."
+        msg += f" Expected: {tree.tree_structure(mean_shapes)}."
+        msg += f" Received: {tree.tree_structure(std_shapes)}."
+        raise ValueError(msg)
+
+    if std_shapes != mean_shapes:
+        msg = "The standard deviations have different shapes than the mean."
+        msg += f" Expected: {mean_shapes}."
+        msg += f" Received: {std_shapes}."
+        raise ValueError(msg)
